@@ -3,6 +3,7 @@ import AslProofs.Str
 import AslProofs.StrRep
 import AslProofs.StrOps
 import AslProofs.StrHist
+import AslProofs.StrExtra
 /-!
 # C03 — `asl::String` agrees with a byte-string model and stays in bounds
 
@@ -259,11 +260,56 @@ theorem printf_retry_total (text : Bytes) (hn : NulFree text) :
     (∀ n0, ∃ r, ofFormat n0 text = some r ∧ Models r text) ∧ (∃ r, ofF text = some r ∧ Models r text) :=
   ⟨fun n0 => ofFormat_spec n0 text hn, ofF_spec text hn⟩
 
-/-- at most two `vsnprintf` attempts are ever needed: the loop with one retry left computes the same as with nine -/
-theorem printf_two_attempts (text : Bytes) (hn : NulFree text) (n0 tries : Nat) :
-    fmtLoop text (tries + 1) (alloc (if n0 = 0 then 100 else n0)) = fmtLoop text 1 (alloc (if n0 = 0 then 100 else n0)) := by
-  have ha := alloc_spec (if n0 = 0 then 100 else n0)
-  exact fmtLoop_two_attempts text hn tries ha.1 (by omega)
+/-- at most two `vsnprintf` attempts are ever needed: the constructor computes the same as a loop with one retry -/
+theorem printf_two_attempts (text : Bytes) (hn : NulFree text) (n0 : Nat) :
+    ofFormat n0 text = fmtLoop text 1 (alloc (if n0 = 0 then Gen.Str.fmtDefault else n0)) :=
+  ofFormat_two_attempts n0 text hn
+
+/-! ## whitespace split, character search, prefix/suffix tests -/
+
+/-- `split()` returns the maximal runs of non-blank bytes, in order -/
+theorem split_whitespace (s : Bytes) : splitWs s = tokensAbs s := splitWs_eq s
+
+/-- `indexOf(char)` = first, `lastIndexOf(char)` = last position holding the byte (−1 = `none` when absent) -/
+theorem char_search (s : Bytes) (c : UInt8) (hc : c ≠ 0) :
+    (∀ k, strchr c s = some k → k < s.length ∧ s.getD k 0 = c ∧ ∀ k', k' < k → s.getD k' 0 ≠ c) ∧
+    (strchr c s = none → c ∉ s) ∧
+    (∀ k, strrchr c s = some k → k < s.length ∧ s.getD k 0 = c ∧ ∀ k', k < k' → k' < s.length → s.getD k' 0 ≠ c) :=
+  ⟨fun _ h => strchr_some hc h, strchr_none, fun _ h => strrchr_some hc h⟩
+
+/-- `startsWith` / `endsWith` decide "is a prefix" / "is a suffix" -/
+theorem starts_ends {r : Rep} {s : Bytes} (h : Models r s) (p : Bytes) :
+    (r.startsWith p = true ↔ p <+: s) ∧ (r.endsWith p = true ↔ p <:+ s) := by
+  unfold Rep.startsWith Rep.endsWith
+  rw [h.view, h.2.1]
+  exact ⟨startsWith_iff s p, endsWith_iff s p⟩
+
+/-! ## G obligations: the storage constants read from the current source are safe
+
+`Gen/StrGen.lean` is regenerated from `include/asl/String.h` and `src/String.cpp` on every run; the model uses those
+values for `ASL_STR_SPACE`, the first heap sizes, the doubling cap, the malloc/realloc switch, and the sizes the number
+and printf constructors ask for.  The theorems above hold for ANY values of the growth-policy constants (they never
+unfold them); what they do need is checked here against the values the source has now. -/
+
+/-- the inline storage exists -/
+theorem gen_inline_storage : 0 < SPACE := gen_space_pos
+
+/-- `String(int)`, `String(unsigned)`, `String(bool)` ask for at least the longest text they can write -/
+theorem gen_number_storage : 11 ≤ Gen.Str.intAlloc ∧ 10 ≤ Gen.Str.uintAlloc ∧ 5 ≤ Gen.Str.boolAlloc := gen_number_allocs
+
+/-- `String(Long)`, `String(ULong)`: values routed to the inline storage have at most `ASL_STR_SPACE-1` characters,
+    the others get at least 20 -/
+theorem gen_long_storage : Gen.Str.longInlineBelow ≤ 1000000000000000 ∧ Gen.Str.longInlineAbove ≤ 100000000000000 ∧
+    15 ≤ SPACE - 1 ∧ 20 ≤ Gen.Str.longHeapAlloc ∧ Gen.Str.ulongInlineBelow ≤ 1000000000000000 ∧
+    20 ≤ Gen.Str.ulongHeapAlloc := gen_long_allocs
+
+/-- the printf loops allow at least one retry, and `String::f`'s first attempt fits its stack buffer -/
+theorem gen_printf_loops : 2 ≤ Gen.Str.fmtTries ∧ 2 ≤ Gen.Str.fTries ∧ Gen.Str.fSpace ≤ Gen.Str.fStack ∧ 0 < Gen.Str.fSpace :=
+  gen_printf
+
+/-- the `INT_MIN` literal of `myitoa` reads back as −2^31, has no NUL and the length the code returns -/
+theorem gen_int_min_literal : myatoi Gen.Str.intMinText = -2147483648 ∧ (∀ c ∈ Gen.Str.intMinText, c ≠ 0) ∧
+    Gen.Str.intMinText.length ≤ 11 ∧ Gen.Str.intMinLen = Gen.Str.intMinText.length := gen_intmin
 
 /-! ## non-vacuity: the hypotheses are met by concrete non-trivial values -/
 
@@ -279,6 +325,7 @@ example : (do let r ← ofBytes [48, 49, 50, 51, 52, 53, 54, 55, 56, 57]; let r'
 
 example : splitAbs [44] [] [97, 44, 44, 98] = [[97], [], [98]] := by decide +kernel
 example : replaceAbs [97, 97] [98] [97, 97, 97, 97, 97] = [98, 98, 97] := by decide +kernel
+example : tokensAbs [32, 97, 98, 9, 9, 99, 10] = [[97, 98], [99]] := by decide +kernel
 example : Mut.Valid (.append [97]) := by intro c hc; simp at hc; subst hc; decide
 example : myltoa (-9223372036854775808) = [45, 57, 50, 50, 51, 51, 55, 50, 48, 51, 54, 56, 53, 52, 55, 55, 53, 56, 48, 56] := by
   decide +kernel
